@@ -925,6 +925,76 @@ def run(ck: core.Check):
                         f"case={strip(blocks)} init={init} model={m} real_final={final} real_log={log}",
                     )
     env.write(saved)
+
+    # ---------------------------------------------------------------- block PROGRAMS (round 10): setters / raise / try anywhere
+    # model side: runCmds over the generated IR (Drv/C16 "prog"), proved equal to the IR-free specification
+    # (programs_refine_spec); real side: the same program on the real managers and public setters
+    pstats = {"programs": 0, "exhaustive_up_to_commands": 0, "exhaustive": 0, "mismatches": 0, "raised_at_top": 0,
+              "with_records": 0, "max_depth": 0, "max_size": 0, "ops": {}, "blocks_with_own_setter_inside": 0}
+    try:
+        from harness import lib_ctxprog as cp
+
+        set2 = 2 not in env.unobservable and env.NI is not None
+        pmax = ck.pick(3, 4)
+        progs = list(cp.gen_exhaustive(pmax, rng, set2))
+        pstats["exhaustive_up_to_commands"], pstats["exhaustive"] = pmax, len(progs)
+        progs = [cp.instrument(p_) for p_ in progs]
+        progs += [cp.gen_random(rng, rng.randrange(2, 16), set2) for _ in range(ck.pick(300, 6000))]
+        pinits = [[rng.randrange(4), rng.randrange(3), rng.randrange(5)] for _ in progs]
+        try:
+            pmodel = ck.driver().ask_many("C16", [{"init": i, "prog": cp.strip(p_)} for p_, i in zip(progs, pinits)])
+        except Exception as e:  # noqa: BLE001
+            ck.broken("correspondence", "C16 driver", str(e))
+            pmodel = [None] * len(progs)
+        for prog, init, m in zip(progs, pinits, pmodel):
+            try:
+                final, log, raised, records = cp.run_real(env, prog, init)
+            except Exception as e:  # noqa: BLE001
+                pstats["mismatches"] += 1
+                if pstats["mismatches"] <= 3:
+                    ck.broken("correspondence", "C16 program not observable", f"{cp.strip(prog)}: {type(e).__name__}: {e}")
+                continue
+            pstats["programs"] += 1
+            pstats["raised_at_top"] += int(raised)
+            pstats["with_records"] += len(records)
+            pstats["max_depth"] = max(pstats["max_depth"], cp.depth(prog))
+            pstats["max_size"] = max(pstats["max_size"], cp.size(prog))
+            cp.count_ops(prog, pstats["ops"])
+            pstats["blocks_with_own_setter_inside"] += sum(
+                1 for r in records if r["pokes_post"] and r["pokes_post"][r["which"]] != r["pokes_pre"][r["which"]])
+            ck.count(("prog", repr(cp.strip(prog))))
+            if pstats["programs"] % 400 == 1:
+                ck.sample({"init": init, "prog": cp.strip(prog), "real_final": final, "real_log": log[:6], "raised": raised}, 3)
+            for mgr, kind, rec in cp.oracle(records):
+                key_ = f"{mgr}:{kind}"
+                cprog_ = prog
+                if not any(x["key"] == key_ for x in ck.failures):
+                    try:  # first witness of this kind: shrink it (the failure is re-judged on every candidate)
+                        small_ = cp.shrink(env, prog, init, key_)
+                        _, _, _, recs_ = cp.run_real(env, small_, init)
+                        hit_ = [r_ for m_, k_, r_ in cp.oracle(recs_) if f"{m_}:{k_}" == key_]
+                        if hit_:
+                            cprog_, rec = small_, hit_[0]
+                    except Exception:  # noqa: BLE001
+                        pass
+                ck.failure(f"{mgr}:{kind}",
+                           f"{mgr}: settings before block {rec['pre']}, after {rec['post']} (on entering the body {rec['inside']}, at its end {rec.get('end')}; "
+                           f"block over {MANAGERS[rec['which']]}={rec['arg']}, setter calls while open "
+                           f"{[b_ - a_ for a_, b_ in zip(rec['pokes_pre'], rec['pokes_post'])]})",
+                           {"init": init, "prog": cprog_})
+            if m is not None and -1 not in final:
+                if "error" in m or m["glob"] != final or m["log"] != log or m["raised"] != raised:
+                    pstats["mismatches"] += 1
+                    if pstats["mismatches"] <= 3:
+                        ck.broken("correspondence", "C16 model-vs-implementation program (runCmds over the generated IR)",
+                                  f"prog={cp.strip(prog)} init={init} model={m} real_final={final} real_log={log} real_raised={raised}")
+    except Exception as e:  # noqa: BLE001
+        ck.broken("correspondence", "C16 programs not observable", f"{type(e).__name__}: {e}")
+    finally:
+        env.write(saved)
+    ck.cov["programs"] = pstats
+    ck.log("programs done")
+
     for k_, why in sorted(env.unobservable.items(), key=str):
         ck.broken("correspondence", f"C16 setting global not observable ({MANAGERS[k_] if isinstance(k_, int) else k_})", why)
 
@@ -1100,6 +1170,14 @@ def replay(ck: core.Check, doc) -> bool:
     saved = env.read()
     case = doc["case"]
     try:
+        if case.get("prog") is not None:
+            from harness import lib_ctxprog as cp
+
+            _, _, _, records = cp.run_real(env, case["prog"], case["init"])
+            bad5 = cp.oracle(records)
+            for m_, k_, r_ in bad5:
+                print(f"{m_}: {k_}: before {r_['pre']} inside {r_['inside']} after {r_['post']}")
+            return bool(bad5)
         if case.get("carrier"):
             env.prepare_probes()
             recs = run_carrier_scenario(env, case["carrier"], tag=case.get("tag", 0))
